@@ -56,7 +56,8 @@ class World:
         self.cfg = cfg
         dt = cfg["dt"]
         a = cfg["a"]
-        self.A = models.build_quantized("idiv", dt, cfg["w"], a)  # contains an in-place scalar division of the activation
+        # A contains an in-place rescaling of the activation: by a python scalar, or by a 0-dim buffer tensor
+        self.A = models.build_quantized(cfg.get("A", "idiv"), dt, cfg["w"], a)
         self.B = models.build_quantized("mlp", dt, cfg["w"], a)
         with torch.no_grad(), Calibration(streamline=False):
             self.B(models.probe_input("mlp", dt, 1))
@@ -310,6 +311,7 @@ def _sources(dtname):
     yield "transposed", base.clone().t()
     yield "sliced", torch.cat([base, base], 0)[::2]
     yield "expanded", base[:1].clone().expand(6, 8)
+    yield "colvec", base[:, :1].clone()
     # size ladder: sources of more than 2^20 elements (in-place / block-wise fast paths)
     i = torch.arange(1026 * 1025, dtype=torch.float64).reshape(1026, 1025)
     big = (torch.cos(i * 0.31) * (1.0 + (i % 3) * 0.4)).to(base.dtype)
@@ -354,6 +356,11 @@ def _purity_task(task, out):
                 if qt.bits < 8:
                     g = 2 if src.shape[0] == 6 else (27 if src.shape[axis] == 1026 else 25)
                     run(f"quantize_weight({qname},axis={axis},group={g},{lname})", [src], lambda: quantize_weight(src, qt, axis, g), {"kind": "purity", "fn": "quantize_weight", "layout": lname})
+                    # every admissible group size of the small sources, including a single group spanning the whole reduced dimension
+                    if src.shape[0] == 6:
+                        red = src.numel() // src.shape[axis]
+                        for g2 in [d for d in range(1, red + 1) if red % d == 0 and d != g]:
+                            run(f"quantize_weight({qname},axis={axis},group={g2},{lname})", [src], lambda: quantize_weight(src, qt, axis, g2), {"kind": "purity", "fn": "quantize_weight", "layout": lname})
                     run(f"MaxOptimizer({qname},axis={axis},{lname})", [src], lambda: MaxOptimizer()(src, qt.bits, axis), {"kind": "purity", "fn": "optimizer", "layout": lname})
             if qt.bits == 8:
                 for sv in (0.1, 0.0, 1.0):
@@ -428,6 +435,8 @@ def plan(tier, seed):
     for w in ("qint8", "qint4", "qfloat8_e4m3fn"):
         for a in ("qint8", "qfloat8_e4m3fn"):
             tasks.append({"kind": "faults", "cfg": {"w": w, "a": a, "dt": "float32"}, "tier": tier})
+            if w == "qint8" or tier == "thorough":
+                tasks.append({"kind": "faults", "cfg": {"w": w, "a": a, "dt": "float32", "A": "imul_t"}, "tier": tier})
     if tier == "thorough":
         tasks.append({"kind": "faults", "cfg": {"w": "qint8", "a": "qint8", "dt": "float16"}, "tier": tier})
     for dt in ("float32", "float16", "bfloat16"):
